@@ -15,6 +15,6 @@ func (endp *Endpoint) VerifServe(l net.Listener) error { return endp.serv.Serve(
 // that the pipeline picks it up).
 func (endp *Endpoint) VerifSetResolver(r dns.Resolver) { endp.resolver = r }
 
-func (endp *Endpoint) VerifLimits() *limits.Group           { return endp.limits }
+func (endp *Endpoint) VerifLimits() *limits.Group              { return endp.limits }
 func (endp *Endpoint) VerifPipeline() *msgpipeline.MsgPipeline { return endp.pipeline }
-func (endp *Endpoint) VerifCloseServer()                    { endp.serv.Close() }
+func (endp *Endpoint) VerifCloseServer()                       { endp.serv.Close() }
